@@ -352,6 +352,42 @@ pub fn run(cx: &mut Ctx) {
         }
         cx.cover("entry_point", name);
         cx.key(name);
+        // the values returned by one call are independent of each other too: no value (or its first 8 bytes) may occur
+        // inside another value of the same call (sealed boxes carry the ephemeral key in the ciphertext and signing secret
+        // keys embed the public key by definition: those pairs are not judged)
+        {
+            let lname = name.to_lowercase();
+            if outputs.len() >= 2 && !lname.contains("seal") && !lname.contains("sign") {
+                cx.eval();
+                let mut related = 0usize;
+                let mut example = String::new();
+                for call_i in 0..n {
+                    'pairs: for a in 0..outputs.len() {
+                        for b in 0..outputs.len() {
+                            if a == b {
+                                continue;
+                            }
+                            let (va, vb) = (&outputs[a][call_i], &outputs[b][call_i]);
+                            if va.len() < 8 || vb.len() < 8 {
+                                continue;
+                            }
+                            let needle = &va[..8];
+                            if vb.windows(8).any(|w| w == needle) {
+                                related += 1;
+                                if example.is_empty() {
+                                    example = format!("component {} starts with bytes that occur in component {}: {} / {}", a, b, hx(&va[..va.len().min(16)]), hx(&vb[..vb.len().min(40)]));
+                                }
+                                break 'pairs;
+                            }
+                        }
+                    }
+                }
+                if related >= 2 {
+                    cx.violation(&format!("C11|{}|values_of_one_call_are_related", name), json!({"calls":n,"calls_with_related_values":related,"example":example}));
+                }
+                cx.cover("cross_component_independence_checked", name);
+            }
+        }
         for (c, vals) in outputs.iter().enumerate() {
             let len = vals[0].len();
             let comp = format!("{}#{}", name, c);
